@@ -1360,6 +1360,9 @@ def _special_class(rnd, k):
         return {"cls": "shallow", "kinds": ["crowned", "circle", "bullet"], "max_rings": 3, "arc_pieces": [20, 80]}, (4, 6)
     if k == 3:
         return {"cls": "fillet"}, (6, 9)
+    if k == 5:
+        # circles as a major arc and its complement, control points next to the ends of the pieces
+        return {"kinds": ["circle", "circle", "bullet", "rect"], "arc_pieces": ["major"]}, (5, 8)
     return {"cls": "close"}, (4, 6)
 
 
@@ -1384,7 +1387,7 @@ def workload(run):
         if di % 2:
             # every other drawing belongs to a class next to the library's resolution (the flat arcs
             # are the expensive ones: one drawing in eight; fillets and close curves cost next to nothing)
-            k = (di // 8) % 3 if di % 8 == 3 else (3 if (di // 2) % 2 else 4)
+            k = (di // 8) % 3 if di % 8 == 3 else (5 if di % 8 == 7 else (3 if (di // 2) % 2 else 4))
             frag, n_sp = _special_class(rnd, k)
             base.update(frag)
             kinds = base.get("kinds")
